@@ -153,6 +153,19 @@ func genCore() []Scenario {
 			}
 		}
 	}
+	// correctly keyed responses over something else than this run's challenge
+	for _, m := range []string{"ticket", "wampcra", "cryptosign"} {
+		for _, alt := range altVariants[m] {
+			for _, user := range []string{"alice", "bob", "mallory"} {
+				sc := baseScenario(id())
+				sc.Tags = []string{"core", m, "alt", alt}
+				setDetail(&sc, "authmethods", methodsJV(m))
+				setDetail(&sc, "authid", jvS(user))
+				sc.Resp.Kind, sc.Resp.Alt = "alt", alt
+				out = append(out, sc)
+			}
+		}
+	}
 	// anonymous and the local shortcut, with every identity key x every value type
 	for _, local := range []bool{false, true} {
 		for _, key := range identityKeys {
@@ -425,7 +438,11 @@ func genRandom(seed uint64, count int) []Scenario {
 			sc.Hello.Details = jvD(d)
 		}
 		// response
-		sc.Resp.Kind = pick(r, []string{"good", "good", "good", "bad_secret", "replay", "replay", "signed_other", "wrong_type", "timeout", "abort", "closed", "garbage"})
+		sc.Resp.Kind = pick(r, []string{"good", "good", "good", "bad_secret", "replay", "replay", "signed_other", "alt", "alt", "wrong_type", "timeout", "abort", "closed", "garbage"})
+		if sc.Resp.Kind == "alt" {
+			// the variant is resolved against the method that issues the challenge
+			sc.Resp.Alt = "any:" + fmt.Sprint(r.n(1000))
+		}
 		if r.chance(15) {
 			sc.Resp.User = pick(r, []string{"alice", "bob", "carol", "erin"})
 		}
